@@ -70,21 +70,26 @@ theorem fold_ingest (b : Bool) (ru : Rules ι δ) (proj : δ → δ) (c : List (
     ∃ n', (ingest b ru 0 docs).foldl (specStep proj) (R c ops n) =
       R c (if (firstOps ru docs).2 then (if b then ops else []) else ops ++ (firstOps ru docs).1) n' := by
   unfold ingest
-  simp only [List.foldl_append, List.foldl_cons, List.foldl_nil, step_newWriter, fold_ops]
-  cases hf : (firstOps ru docs).2 with
+  cases b with
   | false =>
-    simp only [Bool.false_eq_true, if_false, List.foldl_nil, step_drop]
-    exact ⟨_, rfl⟩
-  | true =>
-    cases b with
+    simp only [Bool.false_eq_true, if_false, List.foldl_append, List.foldl_cons, List.foldl_nil,
+      step_newWriter, fold_ops]
+    cases hf : (firstOps ru docs).2 with
     | false =>
-      simp only [if_true, Bool.false_eq_true, if_false, List.foldl_cons, List.foldl_nil,
-        step_rollback, step_drop]
+      simp only [Bool.false_eq_true, if_false, List.foldl_nil, step_drop]
       exact ⟨_, rfl⟩
     | true =>
-      simp only [if_true, List.foldl_cons, List.foldl_nil, step_rollbackOwn, step_drop]
-      refine ⟨n + (firstOps ru docs).1.length, ?_⟩
-      simp
+      simp only [if_true, List.foldl_cons, List.foldl_nil, step_rollback, step_drop]
+      exact ⟨_, rfl⟩
+  | true =>
+    simp only [if_true, List.foldl_append, List.foldl_cons, List.foldl_nil, step_newWriter]
+    cases hf : (firstOps ru docs).2 with
+    | false =>
+      simp only [Bool.false_eq_true, if_false, fold_ops, step_drop]
+      exact ⟨_, rfl⟩
+    | true =>
+      simp only [if_true, List.foldl_nil, step_drop]
+      exact ⟨_, rfl⟩
 
 theorem acked_of_rollsBack (ru : Rules ι δ) (r : Req ι δ) (h : rollsBack ru r = true) :
     ackedOps ru r = [] := by
@@ -232,7 +237,7 @@ theorem flatFold_total (ru : Rules ι δ) (proj : δ → δ) (rs : List (Req ι 
     | false =>
       simp [flatStep, hr, List.flatMap_cons, List.append_assoc]
 
-/-- the hypothesis of the `_partial` theorem: no request reaches `rollback()` while operations of
+/-- the hypothesis of the legacy `_partial` theorems: no request reaches `rollback()` while operations of
 earlier requests are pending (`p` = pending operations before the first request) -/
 def noLateRollback (ru : Rules ι δ) : List (Op ι δ) → List (Req ι δ) → Bool
   | _, [] => true
